@@ -34,3 +34,9 @@ def forall_keys(fn, *dicts):
 def is_new(x):
     """x was allocated during the call (symbolically: not allocated at function entry).  Concretely unobservable: True."""
     return True
+
+
+def reaches(nx_graph, a, b):
+    """b is a proper descendant of a in the networkx graph (symbolically: an uninterpreted relation of the three)."""
+    import networkx as nx
+    return a in nx_graph and b in nx.descendants(nx_graph, a)
